@@ -737,7 +737,21 @@ impl AssemblyCode {
                         | AsmMnemonic::AND
                         | AsmMnemonic::ORA => accumulator = None,
                         AsmMnemonic::LSR | AsmMnemonic::ASL | AsmMnemonic::ROR | AsmMnemonic::ROL => {
-                            accumulator = None
+                            accumulator = None;
+                            // A shift applied to memory modifies it, like a store:
+                            // forget the index registers loaded from memory
+                            if !inst.dasm_operand.is_empty() {
+                                if let Some(v) = &x_register {
+                                    if !v.starts_with("#") {
+                                        x_register = None;
+                                    }
+                                }
+                                if let Some(v) = &y_register {
+                                    if !v.starts_with("#") {
+                                        y_register = None;
+                                    }
+                                }
+                            }
                         }
                         AsmMnemonic::PLA | AsmMnemonic::PHA => accumulator = None,
                         AsmMnemonic::JSR | AsmMnemonic::JMP => {
